@@ -171,7 +171,18 @@ impl Rng {
     }
 }
 
-const MENU: [Act; 5] = [Act::Read, Act::Clone, Act::Drop, Act::Mutate, Act::Unwrap];
+/// Weighted menu: `drop` and `mutate` are over-represented because the interesting behaviours
+/// (who frees, who sees the count at one) need the counter to come down.
+const MENU: [Act; 8] = [
+    Act::Read,
+    Act::Clone,
+    Act::Drop,
+    Act::Drop,
+    Act::Drop,
+    Act::Mutate,
+    Act::Mutate,
+    Act::Unwrap,
+];
 
 /// `count` distinct program lines over the menu: 2-3 threads, 1-3 actions each; about one in
 /// five uses a `send`/`recv` pair (the `send` is the first action of its thread so that the
@@ -186,7 +197,7 @@ pub fn generate(seed: u64, count: usize) -> Vec<String> {
         let mut threads: Vec<Vec<Act>> = Vec::new();
         for _ in 0..n {
             let len = 1 + rng.below(3) as usize;
-            threads.push((0..len).map(|_| MENU[rng.below(5) as usize]).collect());
+            threads.push((0..len).map(|_| MENU[rng.below(MENU.len() as u64) as usize]).collect());
         }
         let mut h = vec![1usize; n];
         match rng.below(5) {
